@@ -284,6 +284,63 @@ fn c05_gated(src: &mut Src, ctx: &mut Ctx) -> Result<(), String> {
         }
     }
 }
+/// Statements the reader documents as unsupported (or may come to tolerate): today each is refused, and a
+/// refusal is fine; but whatever the reader accepts is in its image, and the writer then has to carry it.
+const C05_TOLERATED: &[&str] = &[
+    "VIA v1 DEFAULT LAYER m1 ; RECT 0 0 1 1 ; PROPERTY p 1 ; END v1",
+    "VIA v1 LAYER m1 ; RECT 0 0 1 1 ; PROPERTY p \"a b\" q 2.5 ; END v1",
+    "VIA v1 VIARULE r1 ; CUTSIZE 1 1 ; LAYERS m1 v1 m2 ; CUTSPACING 1 1 ; ENCLOSURE 0 0 0 0 ; PROPERTY p 1 ; END v1",
+    "VIA v1 TOPOFSTACKONLY LAYER m1 ; RECT 0 0 1 1 ; END v1",
+    "VIA v1 FOREIGN f1 ; LAYER m1 ; RECT 0 0 1 1 ; END v1",
+    "MACRO m OBS LAYER m1 ; VIA ITERATE 0 0 v1 DO 2 BY 2 STEP 1 1 ; END END m",
+    "MACRO m EEQ m2 ; END m",
+    "MACRO m LEQ m2 ; END m",
+    "MACRO m PIN p DIRECTION OUTPUT TRISTATE ; END p END m",
+    "MACRO m PIN p DIRECTION FEEDTHRU ; END p END m",
+    "MACRO m PIN p LEQ q ; END p END m",
+    "MACRO m PIN p ANTENNASIZE 1 ; END p END m",
+    "MACRO m PIN p PORT LAYER m1 SPACING 0.1 ; RECT 0 0 1 1 ; END END p END m",
+    "MACRO m PIN p PORT LAYER m1 DESIGNRULEWIDTH 0.1 ; RECT 0 0 1 1 ; END END p END m",
+    "MACRO m PIN p PORT LAYER m1 EXCEPTPGNET ; RECT 0 0 1 1 ; END END p END m",
+    "MACRO m SITE core 0 0 N DO 2 BY 1 STEP 1 1 ; END m",
+    "MACRO m DENSITY LAYER m1 ; RECT 0 0 1 1 45.5 ; END END m",
+    "MACRO m CLASS COVER BUMP ; END m",
+    "MACRO m CLASS RING ; END m",
+    "MACRO m CLASS PAD AREAIO ; FIXEDMASK ; END m",
+    "SITE s CLASS PAD ; SIZE 1 BY 1 ; ROWPATTERN a N b FS ; END s",
+    "MANUFACTURINGGRID 0.005 ;",
+    "MANUFACTURINGGRID 0 ;",
+    "USEMINSPACING OBS ON ;",
+    "CLEARANCEMEASURE EUCLIDEAN ;",
+    "MAXVIASTACK 4 ;",
+    "FIXEDMASK ; MACRO m END m",
+    "PROPERTYDEFINITIONS MACRO p STRING \"x\" ; PIN q REAL RANGE 0 1 2.5 ; LIBRARY r INTEGER 3 ; END PROPERTYDEFINITIONS",
+    "LAYER m1 TYPE ROUTING ; END m1",
+    "VIARULE r1 GENERATE LAYER m1 ; ENCLOSURE 0 0 ; END r1",
+    "NONDEFAULTRULE n1 END n1",
+    "UNITS TIME NANOSECONDS 2.5 ; CAPACITANCE PICOFARADS 0.001 ; DATABASE MICRONS 2000 ; END UNITS",
+    "UNITS DATABASE MICRONS 2000.0 ; END UNITS",
+    "BEGINEXT \"t\" CREATOR \"x y\" ; DATE \"d\" ENDEXT",
+    "DIVIDERCHAR \":\" ; BUSBITCHARS \"<>\" ;",
+];
+fn c05_tolerated(src: &mut Src, ctx: &mut Ctx) -> Result<(), String> {
+    let i = src.u64() as usize;
+    let v = VERSIONS[i % 6];
+    let body = C05_TOLERATED[(i / 6) % C05_TOLERATED.len()];
+    let txt = format!("VERSION {} ; {} END LIBRARY", crate::gen::lef::spell_plain(&LefDecimal::new(v.0, v.1)), body);
+    match open_text(&txt) {
+        Err(_) => {
+            ctx.refused("reader rejects this statement");
+            Ok(())
+        }
+        Ok(lib) => {
+            ctx.label(&format!("accepted: {}", short(body, 60)));
+            ctx.nontrivial(hash_of(&txt));
+            ctx.sample("accepted statement", || txt.clone());
+            c05_roundtrip(&lib, false).map_err(|e| format!("[{}] {}", txt, e))
+        }
+    }
+}
 fn c05_literal(src: &mut Src, ctx: &mut Ctx) -> Result<(), String> {
     let texts = [
         "SITE core1 CLASS CORE ; SYMMETRY X Y ; SIZE 0.46 BY 2.72 ; END core1 END LIBRARY",
@@ -338,11 +395,12 @@ fn c05_lefrw(src: &mut Src, ctx: &mut Ctx) -> Result<(), String> {
     }
 }
 fn run_c05(run: &mut Run) {
-    run.rule("The image of the reader: every library obtained by reading the rendered texts of G-lef values (versions 5.3-5.8, every construct the writer emits), plus the version-gated statements under every version (6 versions x 3 statements, exhaustive) and hand-written texts. Oracle: to_string()/save() succeed and reading the text back gives an equal library. Non-trivial = library with a site, via, extension, property definition, property, density or a pin attribute beyond direction/use; distinct by hash of the value.");
+    run.rule("The image of the reader: every library obtained by reading the rendered texts of G-lef values (versions 5.3-5.8, every construct the writer emits), plus the version-gated statements under every version (6 versions x 3 statements, exhaustive), three dozen statements the reader refuses today or accepts in part (under every version: whatever is accepted must be carried by the writer) and hand-written texts. Oracle: to_string()/save() succeed and reading the text back gives an equal library. Non-trivial = library with a site, via, extension, property definition, property, density or a pin attribute beyond direction/use; distinct by hash of the value.");
     run.assume("the layout of the written text is free; libraries outside the reader's image are not generated");
     run.min_nontrivial = 300;
     run.literals("literals", &(0..4u32).map(|i| vec![0, i]).collect::<Vec<_>>(), &c05_literal);
     run.enumerate("version-gated", 18, &c05_gated);
+    run.enumerate("tolerated-statements", 6 * C05_TOLERATED.len() as u64, &c05_tolerated);
     run.explore("write-read", run.tier.pick(120_000, 1_500_000), 2500, &c05_case);
     run.explore("lefrw-binary", run.tier.pick(400, 4_000), 2500, &c05_lefrw);
 }
@@ -350,6 +408,7 @@ fn case_c05(sub: &str) -> Option<Box<CaseFn<'static>>> {
     match sub {
         "literals" => Some(Box::new(c05_literal)),
         "version-gated" => Some(Box::new(c05_gated)),
+        "tolerated-statements" => Some(Box::new(c05_tolerated)),
         "write-read" => Some(Box::new(c05_case)),
         "lefrw-binary" => Some(Box::new(c05_lefrw)),
         _ => None,
